@@ -35,6 +35,11 @@ def run(tier):
         c.sc, c.profile, c.mode, c.seed = sc, prof, ("loop" if (i // 6) % 2 == 0 else "dispatch"), s
         cases.append(c)
 
+    for k in range(max(10, n // 30)):
+        c = cc.Case()
+        c.sc, c.profile, c.mode, c.seed = gen.gen_tick_in_flush(seed * 100 + k), "tick_in_flush", ("loop" if k % 2 else "dispatch"), seed * 100 + k
+        cases.append(c)
+
     def oracle(case):
         return model_fd.check_c20(case, stats)
 
